@@ -13,7 +13,6 @@ import (
 	"hash"
 	"maps"
 	"math"
-	"path/filepath"
 	"runtime"
 	"slices"
 	"sort"
@@ -489,12 +488,12 @@ func (t *RaftTransaction) ListPage(ctx context.Context, prefix string, after str
 		return nil, physical.ErrTransactionAlreadyCommitted
 	}
 
+	// Seek to prefix+after (plain concatenation): every key that can yield an
+	// entry greater than after sorts at or behind it, and it always lies
+	// inside the prefix. A path join would clean the value ("." "../x"
+	// "a/../b") and could leave the prefix or land behind qualifying keys.
 	prefixBytes := []byte(prefix)
-	fullAfter := filepath.Join(prefix, after)
-	seekPrefix := []byte(fullAfter)
-	if after == "" {
-		seekPrefix = prefixBytes
-	}
+	seekPrefix := []byte(prefix + after)
 
 	// Assume the bucket exists and has keys.
 	c := t.tx.Bucket(dataBucketName).Cursor()
